@@ -148,11 +148,23 @@ def respell(rng, s):
     return ("-" if neg else "") + out
 
 
-NAS_OPS = ['"+"', '"-"', '"*"', '"abs"', '"||"', '"<"', '"<="', '">"', '">="', '"="', '"!="', '"-"1']
+NAS_OPS = ['"+"', '"-"', '"*"', '"abs"', '"||"', '"<"', '"<="', '">"', '">="', '"="', '"!="', '"-"1', '"sort_by"', '"sort_by"']
+
+
+def pad_int(rng):
+    """Digit-only spellings with leading zeros and different lengths (the same values as shorter spellings)."""
+    n = rng.choice((0, 5, 7, 10, 99, 100, 1000, rng.randint(0, 10 ** rng.choice((1, 3, 25)))))
+    return "0" * rng.choice((0, 0, 1, 2, 4)) + str(n)
 
 
 def gen_nas_unit(rng):
     op = rng.choice(NAS_OPS)
+    if op == '"sort_by"':
+        keys = []
+        for _ in range(rng.choice((2, 3, 5, 8, 12))):
+            r = rng.random()
+            keys.append(pad_int(rng) if r < 0.45 else respell(rng, rng.choice(keys)) if keys and r < 0.65 else dec_string(rng))
+        return {"kind": "nas", "op": op, "keys": keys, "fn": rng.choice(['"sort_by"', '"order_by"', "sort_by_nas", "order_by_nas"]), "seed": rng.getrandbits(16)}
     a, b, c = dec_string(rng), dec_string(rng), dec_string(rng)
     if rng.random() < 0.3:
         b = respell(rng, a)
@@ -221,6 +233,24 @@ def run_unit(ctx, unit):
         return
     # number as string
     op = unit["op"]
+    if op == '"sort_by"':
+        items = [{"i": i, "k": k} for i, k in enumerate(unit["keys"])]
+        expr = "(map (%s . .k) .i)" % unit["fn"]
+        o = ctx.drv.run(core.Case(["--select=%s=v" % expr], jm.dumps(items).encode()))
+        if o.result != "ok":
+            st.violation("run:" + o.result, "run failed: %s %s" % (o.errtext, o.panicinfo), unit, {"expr": expr})
+            return
+        st.count("conclusive")
+        rows = [jm.plain(r) for r in jm.read_rows(o.stdout)]
+        got = rows[0].get("v") if rows else None
+        want = [x["i"] for x in sorted(items, key=lambda x: Fraction(x["k"]))]     # sorted() is stable
+        if got != want:
+            st.violation("nas-sort-order", "%s does not order number-as-string keys by their exact values (stable): keys %r, order %r, exact order %r" % (
+                unit["fn"], unit["keys"], got, want), unit, {"expr": expr, "got": got, "exact": want})
+            return
+        st.see("nontrivial", (op, len(unit["keys"]), any(k.startswith("0") and len(k) > 1 for k in unit["keys"]), any("e" in k.lower() for k in unit["keys"])))
+        st.count("nas_sorts_checked")
+        return
     a, b, c = unit["a"], unit["b"], unit["c"]
     fa, fb, fc = Fraction(a), Fraction(b), Fraction(c)
     qa, qb, qc = jm.dumps(a), jm.dumps(b), jm.dumps(c)
